@@ -16,6 +16,7 @@ def run(ck, fb):
     _run0(ck, fb)
     r12h(ck, fb)
     r12j(ck, fb)
+    r12k(ck, fb)
     ck.borrow('rules.c13', {'R13b': 'R12i'}, 'a live gRPC or persistent registration must not be expired by a stale heartbeat entry queued for the same address')
 
 
@@ -297,3 +298,50 @@ def r12j(ck, fb):
                     ck.require(not (tn.op_tainted(op) and not tg.op_tainted(op)), 'R12j', 'group-default:%s' % name, b.where(i),
                                '%s fills %s with the result of NamingUtils::default_namespace' % (name.split('::')[-1], f))
     ck.floor('R12j', 'namespace / group fields filled from defaulted values', n, 4)
+
+
+# reconciliation paths: removals nobody asked for by name. Each owns one kind of instance and may remove only that kind.
+#   function -> (kind it owns: value of Instance.ephemeral, why)
+RECONCILERS = {
+    'remove_client_instance': (True, 'a closed connection takes its ephemeral instances'),
+    'diff_grpc_distro_client_data': (True, 'the distro data of a peer lists the ephemeral instances of its gRPC connections; persistent ones travel through raft'),
+    'process_naming_raft_request': (False, 'the raft log owns persistent instances only'),
+}
+
+
+def r12k(ck, fb):
+    ck.rule('R12k', 'reconciliation removes only its own kind: in remove_client_instance, diff_grpc_distro_client_data (both own ephemeral '
+                    'instances) and the RemoveInstance arm of process_naming_raft_request (owns persistent ones), every call of '
+                    'NamingActor::remove_instance is reached only after a test of the stored instance\'s ephemeral flag with the owning polarity - '
+                    'otherwise a registration nobody deregistered disappears from the queries (a persistent instance switched to ephemeral is '
+                    'deleted when its own raft removal entry is applied; a persistent instance recorded for a remote connection is deleted by the '
+                    'next distro diff)')
+    n = 0
+    for fn, (kind, why) in RECONCILERS.items():
+        b = ck.body(NA + fn, 'R12k')
+        if not b:
+            continue
+        sites = []
+        for x in util.region(fb, b, 1):
+            for s in x.calls(re.escape(NA + 'remove_instance') + '$'):
+                sites.append((x, s))
+        ck.require(len(sites) >= 1, 'R12k', '%s:removes' % fn, b.where(), '%s no longer removes through NamingActor::remove_instance' % fn)
+        for (x, s) in sites:
+            n += 1
+            gs = util.flag_guards(fb, x, s.bb, 'ephemeral')
+            # a filter applied when the keys were collected counts as well: a guard on any push into the collection that feeds the loop
+            ok = any(g[0] is None or g[0] == kind for g in gs)
+            wrong = [g for g in gs if g[0] is not None and g[0] != kind]
+            if not ok and not wrong:
+                for ps in x.calls(r'Vec::<T, A>::push$|HashSet::<T, S, A>::insert$'):
+                    g2 = util.flag_guards(fb, x, ps.bb, 'ephemeral')
+                    if any(g[0] is None or g[0] == kind for g in g2) and s.bb in cfg.reach_from(x, [ps.bb]):
+                        ok = True
+            ck.require(ok and not wrong, 'R12k', '%s:removes-own-kind-only' % fn, s.where(),
+                       '%s removes whatever is registered at the address without looking at its ephemeral flag (%s): %s' % (
+                           fn, why,
+                           'an instance that was switched from persistent to ephemeral is deleted when the raft entry that drops the persistent record is applied'
+                           if kind is False else 'a persistent instance is deleted by a reconciliation that only knows about ephemeral ones')
+                       if not wrong else '%s removes only instances with ephemeral == %s, the kind it does not own' % (fn, str(not kind).lower()),
+                       'ephemeral == %s required' % str(kind).lower())
+    ck.floor('R12k', 'reconciliation removal sites', n, 3)
